@@ -183,7 +183,13 @@ Definition round_ok (cfg : config) (refMax peerMax : f64) (nref npeer : nat)
       | None => true
       end
   | S _, S _ =>
-      (if small then within c refMax || within c peerMax else true) &&
+      (* the bound: both caps below 2^62 ns, or both aggregated offsets known and their bounded values less than
+         2^63 apart: Midpoint cannot wrap (beyond that it can: Props/C01.v C01_midpoint_refuted_beyond_2p62) *)
+      let nw := match kr, kp with
+                | Some ro, Some po => Z.abs (bounded peerMax po - bounded refMax ro) <=? max_i64
+                | _, _ => false
+                end in
+      (if small || nw then within c refMax || within c peerMax else true) &&
       match kr, kp with
       | Some ro, Some po =>
           if Z.abs po <=? c_cutoff cfg then c =? bounded refMax ro
